@@ -8,12 +8,15 @@
  * Parts (--part int|intgen|float|human, default: all)
  *  int     ALL strings over { SP TAB + - 0 1 7 9 a f x z . } up to --len
  *          x base {0,2,8,10,16,36} x trailing {0,1}
- *          x 6 unsigned types (u8,u16,u32,u64,size_t,uintmax_t) x 8 bounds forms
+ *          x 6 unsigned types (u8,u16,u32,u64,size_t,uintmax_t) x 10 bounds forms
  *            {no bounds, [0,max], [0,10], [-5,5], [-200,-100], [max,max],
- *             [3,2] (empty), [1,2^33-1] (beyond the narrow types)}
- *          x 5 signed types (i8,i16,i32,i64,intmax_t) x 7 bounds forms inside
- *            the type {[min,max], [0,10], [-5,5], [max,max], [min,min], [3,2], [0,max]}
- *          plus the PARSENUM() spellings (base 0, no trailing characters).
+ *             [3,2] (empty), [1,2^33-1] (beyond the narrow types),
+ *             [0,0] and [-5,0] (maximum exactly 0: only a zero is in range)}
+ *          x 5 signed types (i8,i16,i32,i64,intmax_t) x 10 bounds forms inside
+ *            the type {[min,max], [0,10], [-5,5], [max,max], [min,min], [3,2], [0,max],
+ *             [0,0], [-5,0], [min,0] (maximum exactly 0)}
+ *          plus the PARSENUM() spellings (base 0, no trailing characters),
+ *          which include [0,0], [-5,0] (unsigned) and [0,0], [min,0] (signed).
  *  intgen  generated boundary numerals: for every type min-1,min,min+1,
  *          max-1,max,max+1, and -1,-0,0,1,2^63..,2^64-1,2^64,-(2^64-1),-2^63,
  *          -2^63-1, the neighbours of every bound above, 2^100; rendered in
@@ -22,7 +25,8 @@
  *          that base and with base 0, both trailing flags, all types/bounds.
  *  float   ALL strings over { 0 1 5 . e p x - + i n f a SP } up to --flen, plus
  *          a list of explicit strings (infinity, nan(...), limits of float and
- *          double, 2^53+1, ...) x trailing x {float,double} x 9 bounds forms.
+ *          double, 2^53+1, ...) x trailing x {float,double} x 11 bounds forms
+ *          (incl. [0,0] and [-5,0]: maximum exactly 0).
  *  human   humansize_parse on ALL strings over { 0 1 9 SP k M G T P E B x } up to
  *          --hlen plus overflow-boundary numerals x every suffix; humansize()
  *          for every representable output value v: v-1, v, v+1, the midpoint
@@ -256,7 +260,11 @@ judge_int(const struct icase * c, const char * tname, const char * cfg, int is_u
 	RUN_I(T, TN, 1, 0, TMAX, "max..max", EX6(TMAX, TMAX), TMAX, TMAX);		\
 	RUN_I(T, TN, 1, 0, TMAX, "3..2", EX6(3, 2), 3, 2);				\
 	RUN_I(T, TN, 1, 0, TMAX, "1..2^33-1", EX6(1, BIG), 1, BIG);			\
+	RUN_I(T, TN, 1, 0, TMAX, "0..0", EX6(0, 0), 0, 0);				\
+	RUN_I(T, TN, 1, 0, TMAX, "-5..0", EX6(-5, 0), -5, 0);				\
 	if (c->base == 0 && !c->trailing) {						\
+		RUN_I(T, TN, 1, 0, TMAX, "P:0..0", PARSENUM(&x_, c->s, 0, 0), 0, 0);	\
+		RUN_I(T, TN, 1, 0, TMAX, "P:-5..0", PARSENUM(&x_, c->s, -5, 0), -5, 0);	\
 		RUN_I(T, TN, 1, 0, TMAX, "P:nobounds", PARSENUM(&x_, c->s), 0, TMAX);	\
 		RUN_I(T, TN, 1, 0, TMAX, "P:0..max", PARSENUM(&x_, c->s, 0, TMAX), 0, TMAX); \
 		RUN_I(T, TN, 1, 0, TMAX, "P:-5..5", PARSENUM(&x_, c->s, -5, 5), -5, 5);	\
@@ -270,7 +278,12 @@ judge_int(const struct icase * c, const char * tname, const char * cfg, int is_u
 	RUN_I(T, TN, 0, TMIN, TMAX, "min..min", EX6(TMIN, TMIN), TMIN, TMIN);		\
 	RUN_I(T, TN, 0, TMIN, TMAX, "3..2", EX6(3, 2), 3, 2);				\
 	RUN_I(T, TN, 0, TMIN, TMAX, "0..max", EX6(0, TMAX), 0, TMAX);			\
+	RUN_I(T, TN, 0, TMIN, TMAX, "0..0", EX6(0, 0), 0, 0);				\
+	RUN_I(T, TN, 0, TMIN, TMAX, "-5..0", EX6(-5, 0), -5, 0);			\
+	RUN_I(T, TN, 0, TMIN, TMAX, "min..0", EX6(TMIN, 0), TMIN, 0);			\
 	if (c->base == 0 && !c->trailing) {						\
+		RUN_I(T, TN, 0, TMIN, TMAX, "P:0..0", PARSENUM(&x_, c->s, 0, 0), 0, 0);	\
+		RUN_I(T, TN, 0, TMIN, TMAX, "P:min..0", PARSENUM(&x_, c->s, TMIN, 0), TMIN, 0); \
 		RUN_I(T, TN, 0, TMIN, TMAX, "P:min..max", PARSENUM(&x_, c->s, TMIN, TMAX), TMIN, TMAX); \
 		RUN_I(T, TN, 0, TMIN, TMAX, "P:-5..5", PARSENUM(&x_, c->s, -5, 5), -5, 5); \
 	}
@@ -622,7 +635,10 @@ judge_flt(struct fcase * c, const char * tname, const char * cfg, int isfloat,
 	RUN_F(T, TN, ISF, "1.5..1.5", FX6(1.5, 1.5), 1.5, 1.5);				\
 	RUN_F(T, TN, ISF, "3..2", FX6(3, 2), 3, 2);					\
 	RUN_F(T, TN, ISF, "-max..max", FX6(-TMAX, TMAX), -TMAX, TMAX);			\
+	RUN_F(T, TN, ISF, "0..0", FX6(0, 0), 0, 0);					\
+	RUN_F(T, TN, ISF, "-5..0", FX6(-5, 0), -5, 0);					\
 	if (!c->trailing) {								\
+		RUN_F(T, TN, ISF, "P:0..0", PARSENUM(&x_, c->s, 0, 0), 0, 0);		\
 		RUN_F(T, TN, ISF, "P:nobounds", PARSENUM(&x_, c->s), -INFINITY, INFINITY); \
 		RUN_F(T, TN, ISF, "P:0..10", PARSENUM(&x_, c->s, 0, 10), 0, 10);	\
 	}
@@ -1180,7 +1196,7 @@ main(int argc, char ** argv)
 		n = 1 + ipow(NIALPHA, int_pre);
 		vf_count("int.exhaustive", 0);
 		vf_info("int.bounds", "all strings over {SP TAB + - 0 1 7 9 a f x z .%s} of length 0..%d x base {0,2,8,10,16,36} x trailing {0,1} "
-		    "x 6 unsigned types x 8 bounds forms + 5 signed types x 7 bounds forms (+ PARSENUM spellings at base 0)", deep ? " X F Z" : "", int_len);
+		    "x 6 unsigned types x 10 bounds forms + 5 signed types x 10 bounds forms, both incl. maximum == 0 as [0,0] and [-5,0] (+ PARSENUM spellings at base 0)", deep ? " X F Z" : "", int_len);
 		vf_parallel(n, int_unit);
 		if (!vf_deadline_hit() && vf_getcount("int.units_done") == n)
 			vf_setmax("int.exhaustive", 1);
@@ -1200,7 +1216,7 @@ main(int argc, char ** argv)
 		n = 1 + ipow(NFALPHA, flt_pre);
 		vf_count("float.exhaustive", 0);
 		vf_info("float.bounds", "all strings over {0 1 5 . e p x - + i n f a SP%s} of length 0..%d + explicit list x trailing {0,1} "
-		    "x {float,double} x 9 bounds forms (+ PARSENUM spellings)", deep ? " E" : "", flt_len);
+		    "x {float,double} x 11 bounds forms incl. [0,0] and [-5,0] (+ PARSENUM spellings)", deep ? " E" : "", flt_len);
 		vf_parallel(n, flt_unit);
 		if (!vf_deadline_hit() && vf_getcount("float.units_done") == n)
 			vf_setmax("float.exhaustive", 1);
